@@ -921,3 +921,68 @@ pub fn apply_blob_fault(text: &mut String, f: &BlobFault) -> bool {
         }
     }
 }
+
+/// Pairs of different passwords of equal length that collide under the cheap 32-bit fingerprints code
+/// uses for caches and lookups (FNV-1a, FNV-1, CRC-32, djb2, sdbm, Adler-32, the 31-multiplier string
+/// hash, byte sum): found once per process by a birthday search over seeded random strings.
+pub fn fingerprint_collisions() -> &'static Vec<(String, Vec<u8>, Vec<u8>)> {
+    static CELL: std::sync::OnceLock<Vec<(String, Vec<u8>, Vec<u8>)>> = std::sync::OnceLock::new();
+    CELL.get_or_init(|| {
+        fn crc32(d: &[u8]) -> u32 {
+            let mut c = 0xffff_ffffu32;
+            for b in d {
+                c ^= *b as u32;
+                for _ in 0..8 {
+                    c = if c & 1 != 0 { (c >> 1) ^ 0xedb8_8320 } else { c >> 1 };
+                }
+            }
+            !c
+        }
+        let hashes: Vec<(&str, fn(&[u8]) -> u32)> = vec![
+            ("fnv1a-32", |d| d.iter().fold(0x811c_9dc5u32, |h, b| (h ^ *b as u32).wrapping_mul(0x0100_0193))),
+            ("fnv1-32", |d| d.iter().fold(0x811c_9dc5u32, |h, b| h.wrapping_mul(0x0100_0193) ^ *b as u32)),
+            ("crc32", crc32),
+            ("djb2", |d| d.iter().fold(5381u32, |h, b| h.wrapping_mul(33).wrapping_add(*b as u32))),
+            ("sdbm", |d| d.iter().fold(0u32, |h, b| (*b as u32).wrapping_add(h << 6).wrapping_add(h << 16).wrapping_sub(h))),
+            ("adler32", |d| {
+                let (mut a, mut b2) = (1u32, 0u32);
+                for x in d {
+                    a = (a + *x as u32) % 65521;
+                    b2 = (b2 + a) % 65521;
+                }
+                (b2 << 16) | a
+            }),
+            ("times31", |d| d.iter().fold(0u32, |h, b| h.wrapping_mul(31).wrapping_add(*b as u32))),
+            ("fnv1a-64-folded", |d| {
+                let h = d.iter().fold(0xcbf2_9ce4_8422_2325u64, |h, b| (h ^ *b as u64).wrapping_mul(0x0000_0100_0000_01b3));
+                (h ^ (h >> 32)) as u32
+            }),
+        ];
+        const ALPHA: &[u8] = b"abcdefghijklmnopqrstuvwxyz0123456789-";
+        let mut out = Vec::new();
+        for (hi, (name, h)) in hashes.iter().enumerate() {
+            let mut seen: std::collections::HashMap<u32, Vec<u8>> = std::collections::HashMap::new();
+            let mut g = crate::prng::Rng::new(0xc011_1de0 + hi as u64);
+            let mut found = 0;
+            for _ in 0..400_000 {
+                let s: Vec<u8> = (0..12).map(|_| ALPHA[g.usize_below(ALPHA.len())]).collect();
+                let k = h(&s);
+                match seen.get(&k) {
+                    Some(o) if *o != s => {
+                        out.push((name.to_string(), o.clone(), s));
+                        found += 1;
+                        if found == 2 {
+                            break;
+                        }
+                    }
+                    _ => {
+                        seen.insert(k, s);
+                    }
+                }
+            }
+        }
+        // equal byte sum and xor: a transposition
+        out.push(("byte-sum".into(), b"correct horse".to_vec(), b"correct hosre".to_vec()));
+        out
+    })
+}
